@@ -10,6 +10,7 @@ import (
 	"github.com/cloudwego/gopkg/protocol/thrift"
 
 	"verif/mc"
+	"verif/ref"
 )
 
 // C18 — exception helpers preserve kind, type id and cause (pure functions, whole small product).
@@ -94,11 +95,30 @@ func c18Make(kind string, id int32, msg string, cause int) error {
 		return embProto{ProtocolException: thrift.NewProtocolException(id, msg)}
 	case "plain":
 		return errors.New(msg)
+	case "plain-formatter":
+		return fmtPlain{msg}
+	case "foreign-formatter":
+		return fmtForeign{foreignExc{id, msg}}
+	case "protocol-reused-as-decode-target":
+		// a protocol exception that wraps a cause and was afterwards used as the target of a decode: its type id and
+		// message are those decoded, no longer those derived from the cause
+		pe := thrift.NewProtocolExceptionWithErr(c18Cause(2))
+		st := exceptionStruct(msg, id)
+		if _, err := pe.FastRead(ref.Encode(nil, &st)); err != nil {
+			panic("c18Make: FastRead into a protocol exception failed: " + err.Error())
+		}
+		return pe
+	case "protocol-with-mutable-cause":
+		n := new(int)
+		*n = 1
+		pe := thrift.NewProtocolExceptionWithErr(mutableCause{n})
+		*n = 2 // the cause's text changes after wrapping; the exception keeps the text it was created with
+		return pe
 	}
 	panic("c18Make")
 }
 
-var c18Kinds = []string{"transport", "protocol", "protocol-with-cause", "application", "foreign", "plain", "foreign-embeds-application", "foreign-embeds-transport", "foreign-embeds-protocol"}
+var c18Kinds = []string{"transport", "protocol", "protocol-with-cause", "application", "foreign", "plain", "foreign-embeds-application", "foreign-embeds-transport", "foreign-embeds-protocol", "plain-formatter", "foreign-formatter", "protocol-reused-as-decode-target", "protocol-with-mutable-cause"}
 
 // user error types that embed one of the library's exceptions (and so inherit its methods) but are types of their own,
 // with their own type id
@@ -123,7 +143,29 @@ type embProto struct {
 
 func (e embProto) TypeId() int32 { return e.ProtocolException.TypeId() + 70000 }
 
+// errors that implement fmt.Formatter (pkg/errors style): %v renders more than Error() returns
+type fmtPlain struct{ msg string }
+
+func (e fmtPlain) Error() string { return e.msg }
+func (e fmtPlain) Format(f fmt.State, verb rune) {
+	fmt.Fprintf(f, "%s\n\tat main.go:42 (stack trace)", e.msg)
+}
+
+type fmtForeign struct{ foreignExc }
+
+func (e fmtForeign) Format(f fmt.State, verb rune) {
+	fmt.Fprintf(f, "foreign(%d): %s [verbose]", e.id, e.msg)
+}
+
+// mutableCause is a cause whose text changes after it was wrapped (e.g. an error that reports a counter)
+type mutableCause struct{ n *int }
+
+func (m mutableCause) Error() string { return fmt.Sprintf("attempt %d failed", *m.n) }
+
 func c18Family(kind string) string {
+	if kind == "plain-formatter" {
+		return "plain"
+	}
 	if strings.HasPrefix(kind, "foreign") {
 		return "foreign"
 	}
@@ -207,7 +249,7 @@ func c18Prepend(c *mc.Ctx, k c18Case) {
 			} else if g.TypeId() != wantID {
 				bad("type-id", "type id %d, want %d", g.TypeId(), wantID)
 			}
-		case "protocol", "protocol-with-cause":
+		case "protocol", "protocol-with-cause", "protocol-reused-as-decode-target", "protocol-with-mutable-cause":
 			g, ok := got.(*thrift.ProtocolException)
 			if !ok {
 				bad("kind", "result has dynamic type %T, want *ProtocolException", got)
